@@ -211,6 +211,15 @@ class LaneEval:
             if not c.is_const():
                 raise Unsupported("?: on a non-constant")
             return self.ev(e[2] if c.b else e[3])
+        if k == "bin" and e[1] == "+":
+            a, b = self.ev(e[2]), self.ev(e[3])
+            w = max(a.w, b.w)
+            return add(Aff(w, a.a, a.b, a.hm), Aff(w, b.a, b.b, b.hm))
+        if k == "bin" and e[1] == "&":
+            a, b = self.ev(e[2]), self.ev(e[3])
+            if not (a.is_const() and b.is_const()):
+                raise Unsupported("& of non-constants")
+            return Aff(max(a.w, b.w), 0, a.b & b.b, 0)
         raise Unsupported("scalar expression %s" % (e[:2],))
 
     def lanewise(self, fn, *vs):
@@ -224,6 +233,15 @@ class LaneEval:
         name, args = e[1], e[2]
         if not isinstance(name, str):
             raise Unsupported("indirect call")
+        if name == "counter_low":
+            v = self.ev(args[0])
+            return Aff(32, v.a, v.b, v.hm % (1 << 32))
+        if name == "counter_high":
+            return_v = shift_right(self.ev(args[0]), 32, self.cell)
+            return Aff(32, return_v.a, return_v.b, return_v.hm)
+        if name == "set4":
+            lanes = [self.ev(a) for a in args]
+            return Vec([Aff(32, l.a, l.b, l.hm) for l in lanes], 32)
         m = re.fullmatch(r"_mm(256|512)?_set1_epi(32|64x?)", name)
         if m:
             bits = int(m.group(1) or 128)
@@ -303,7 +321,8 @@ def decide_load_counters(f, nlanes):
                 return False, "partition refinement did not converge", ncells
             try:
                 out = LaneEval(f, inc, c).run()
-                lo_v, hi_v = out.get("out_lo"), out.get("out_hi")
+                pn = [p[0] for p in f.get("params", [])]
+                lo_v, hi_v = (out.get(pn[2]), out.get(pn[3])) if len(pn) >= 4 else (out.get("out_lo"), out.get("out_hi"))
                 if lo_v is None or hi_v is None or len(lo_v.lanes) != nlanes or len(hi_v.lanes) != nlanes:
                     return False, "out_lo/out_hi not written with %d lanes each" % nlanes, ncells
                 for i in range(nlanes):
